@@ -216,7 +216,9 @@ PAIRS += D3_PAIRS
 
 
 LINK_SETS = [["mov #1, r0\nnop\n", "clr r1\n", ".word ., 177777\n"], ["a: .word a\n.byte 1\n", ".even\nb: .word b, .\n", "c: .word c\n.repeat 2 { .word . }\n"],
-             [".byte 1, 2, 3\n", ".even\nq: mov #q, r0\n", ".align 10\n.word .\n"], ["nop\n", ".word .\n"], ["nop\n", "nop\n", "nop\n", ".word .\n"]]
+             [".byte 1, 2, 3\n", ".even\nq: mov #q, r0\n", ".align 10\n.word .\n"], ["nop\n", ".word .\n"], ["nop\n", "nop\n", "nop\n", ".word .\n"],
+             # symbols that cross the file boundary: '.extern all' before the definitions it exports, in either direction; '::' and '==' exports
+             [".extern all\nfoo: .word 1\nk = 7\n", ".word foo, k\n"], [".word bar, kk\n", ".extern all\nnop\nbar: .word 2\nkk = 3\n"], ["a:: .word b\n", "b:: .word a\nc == 5\n", ".word a, b, c\n"]]
 
 
 def unit_rac(eng):
@@ -308,7 +310,7 @@ def replay(o, tree):
     cfg = o.get("cfg") or {}
     if cfg.get("kind") == "concat":
         return deferred_c.replay_concat(cfg, tree)
-    if cfg.get("kind") == "linkfiles":
+    if cfg.get("kind") in ("linkfiles", "block"):
         # 1..3 linked files against their concatenation assembled as one file (position-dependent content in every file)
         sets = LINK_SETS
         jobs = []
